@@ -192,73 +192,73 @@ mod v_iface_frag_tx {
     // multiple of 8 and every offset field must equal the bytes sent so far.
     // IP payload = 8 (UDP header) + application bytes.  Fragment payload lengths are given in `bounds=`.
 
-    // @harness props=C12 cfg=KI4 tier=q to=600 mem=6 unwind=12 opts=nomem covers=2 funcs=InterfaceInner::dispatch_ip;InterfaceInner::dispatch_ipv4_frag;DeviceCapabilities::max_ipv4_fragment_size;Fragmenter::finished bounds=MTU_44;_UDP_payload_17;_fragment_payloads_24+1;_symbolic_payload_ports_ttl;_Medium::Ip
+    // @harness props=C12,C10:t cfg=KI4 tier=q to=600 mem=6 unwind=12 opts=nomem covers=2 funcs=InterfaceInner::dispatch_ip;InterfaceInner::dispatch_ipv4_frag;DeviceCapabilities::max_ipv4_fragment_size;Fragmenter::finished bounds=MTU_44;_UDP_payload_17;_fragment_payloads_24+1;_symbolic_payload_ports_ttl;_Medium::Ip
     #[kani::proof]
     pub(crate) fn ipv4_frag_tx_44_17() {
         frag_tx::<44, 17, 2, 48, 48>(ChecksumCapabilities::ignored(), false);
     }
 
-    // @harness props=C12 cfg=KI4 tier=q to=600 mem=6 unwind=12 opts=nomem covers=2 funcs=InterfaceInner::dispatch_ip;InterfaceInner::dispatch_ipv4_frag;DeviceCapabilities::max_ipv4_fragment_size;Fragmenter::finished bounds=MTU_44;_UDP_payload_40;_fragment_payloads_24+24;_symbolic_payload_ports_ttl;_Medium::Ip
+    // @harness props=C12,C10:t cfg=KI4 tier=q to=600 mem=6 unwind=12 opts=nomem covers=2 funcs=InterfaceInner::dispatch_ip;InterfaceInner::dispatch_ipv4_frag;DeviceCapabilities::max_ipv4_fragment_size;Fragmenter::finished bounds=MTU_44;_UDP_payload_40;_fragment_payloads_24+24;_symbolic_payload_ports_ttl;_Medium::Ip
     #[kani::proof]
     pub(crate) fn ipv4_frag_tx_44_40() {
         frag_tx::<44, 40, 2, 48, 72>(ChecksumCapabilities::ignored(), false);
     }
 
-    // @harness props=C12 cfg=KI4 tier=q to=600 mem=6 unwind=12 opts=nomem covers=2 funcs=InterfaceInner::dispatch_ip;InterfaceInner::dispatch_ipv4_frag;DeviceCapabilities::max_ipv4_fragment_size;Fragmenter::finished bounds=MTU_44;_UDP_payload_41;_fragment_payloads_24+24+1;_symbolic_payload_ports_ttl;_Medium::Ip
+    // @harness props=C12,C10:t cfg=KI4 tier=q to=600 mem=6 unwind=12 opts=nomem covers=2 funcs=InterfaceInner::dispatch_ip;InterfaceInner::dispatch_ipv4_frag;DeviceCapabilities::max_ipv4_fragment_size;Fragmenter::finished bounds=MTU_44;_UDP_payload_41;_fragment_payloads_24+24+1;_symbolic_payload_ports_ttl;_Medium::Ip
     #[kani::proof]
     pub(crate) fn ipv4_frag_tx_44_41() {
         frag_tx::<44, 41, 3, 48, 72>(ChecksumCapabilities::ignored(), false);
     }
 
-    // @harness props=C12 cfg=KI4 tier=q to=600 mem=6 unwind=12 opts=nomem covers=2 funcs=InterfaceInner::dispatch_ip;InterfaceInner::dispatch_ipv4_frag;DeviceCapabilities::max_ipv4_fragment_size;Fragmenter::finished bounds=MTU_44;_UDP_payload_63;_fragment_payloads_24+24+23;_symbolic_payload_ports_ttl;_Medium::Ip
+    // @harness props=C12,C10:t cfg=KI4 tier=q to=600 mem=6 unwind=12 opts=nomem covers=2 funcs=InterfaceInner::dispatch_ip;InterfaceInner::dispatch_ipv4_frag;DeviceCapabilities::max_ipv4_fragment_size;Fragmenter::finished bounds=MTU_44;_UDP_payload_63;_fragment_payloads_24+24+23;_symbolic_payload_ports_ttl;_Medium::Ip
     #[kani::proof]
     pub(crate) fn ipv4_frag_tx_44_63() {
         frag_tx::<44, 63, 3, 48, 96>(ChecksumCapabilities::ignored(), false);
     }
 
-    // @harness props=C12 cfg=KI4 tier=q to=600 mem=6 unwind=12 opts=nomem covers=2 funcs=InterfaceInner::dispatch_ip;InterfaceInner::dispatch_ipv4_frag;DeviceCapabilities::max_ipv4_fragment_size;Fragmenter::finished bounds=MTU_44;_UDP_payload_88;_fragment_payloads_24+24+24+24;_symbolic_payload_ports_ttl;_Medium::Ip
+    // @harness props=C12,C10:t cfg=KI4 tier=q to=600 mem=6 unwind=12 opts=nomem covers=2 funcs=InterfaceInner::dispatch_ip;InterfaceInner::dispatch_ipv4_frag;DeviceCapabilities::max_ipv4_fragment_size;Fragmenter::finished bounds=MTU_44;_UDP_payload_88;_fragment_payloads_24+24+24+24;_symbolic_payload_ports_ttl;_Medium::Ip
     #[kani::proof]
     pub(crate) fn ipv4_frag_tx_44_88() {
         frag_tx::<44, 88, 4, 48, 120>(ChecksumCapabilities::ignored(), false);
     }
 
-    // @harness props=C12 cfg=KI4 tier=q to=600 mem=6 unwind=12 opts=nomem covers=2 funcs=InterfaceInner::dispatch_ip;InterfaceInner::dispatch_ipv4_frag;DeviceCapabilities::max_ipv4_fragment_size;Fragmenter::finished bounds=MTU_52;_UDP_payload_60;_fragment_payloads_32+32+4;_symbolic_payload_ports_ttl;_Medium::Ip
+    // @harness props=C12,C10:t cfg=KI4 tier=q to=600 mem=6 unwind=12 opts=nomem covers=2 funcs=InterfaceInner::dispatch_ip;InterfaceInner::dispatch_ipv4_frag;DeviceCapabilities::max_ipv4_fragment_size;Fragmenter::finished bounds=MTU_52;_UDP_payload_60;_fragment_payloads_32+32+4;_symbolic_payload_ports_ttl;_Medium::Ip
     #[kani::proof]
     pub(crate) fn ipv4_frag_tx_52_60() {
         frag_tx::<52, 60, 3, 56, 88>(ChecksumCapabilities::ignored(), false);
     }
 
-    // @harness props=C12 cfg=KI4 tier=q to=600 mem=6 unwind=12 opts=nomem covers=2 funcs=InterfaceInner::dispatch_ip;InterfaceInner::dispatch_ipv4_frag;DeviceCapabilities::max_ipv4_fragment_size;Fragmenter::finished bounds=MTU_68;_UDP_payload_89;_fragment_payloads_48+48+1;_symbolic_payload_ports_ttl;_Medium::Ip
+    // @harness props=C12,C10:t cfg=KI4 tier=q to=600 mem=6 unwind=12 opts=nomem covers=2 funcs=InterfaceInner::dispatch_ip;InterfaceInner::dispatch_ipv4_frag;DeviceCapabilities::max_ipv4_fragment_size;Fragmenter::finished bounds=MTU_68;_UDP_payload_89;_fragment_payloads_48+48+1;_symbolic_payload_ports_ttl;_Medium::Ip
     #[kani::proof]
     pub(crate) fn ipv4_frag_tx_68_89() {
         frag_tx::<68, 89, 3, 72, 120>(ChecksumCapabilities::ignored(), false);
     }
 
-    // @harness props=C12 cfg=KI4 tier=q to=600 mem=6 unwind=12 opts=nomem covers=2 funcs=InterfaceInner::dispatch_ip;InterfaceInner::dispatch_ipv4_frag;DeviceCapabilities::max_ipv4_fragment_size;Fragmenter::finished bounds=MTU_68;_UDP_payload_136;_fragment_payloads_48+48+48;_symbolic_payload_ports_ttl;_Medium::Ip
+    // @harness props=C12,C10:t cfg=KI4 tier=q to=600 mem=6 unwind=12 opts=nomem covers=2 funcs=InterfaceInner::dispatch_ip;InterfaceInner::dispatch_ipv4_frag;DeviceCapabilities::max_ipv4_fragment_size;Fragmenter::finished bounds=MTU_68;_UDP_payload_136;_fragment_payloads_48+48+48;_symbolic_payload_ports_ttl;_Medium::Ip
     #[kani::proof]
     pub(crate) fn ipv4_frag_tx_68_136() {
         frag_tx::<68, 136, 3, 72, 168>(ChecksumCapabilities::ignored(), false);
     }
 
-    // @harness props=C12 cfg=KI4 tier=q to=600 mem=6 unwind=12 opts=nomem covers=2 funcs=InterfaceInner::dispatch_ip;InterfaceInner::dispatch_ipv4_frag;DeviceCapabilities::max_ipv4_fragment_size;Fragmenter::finished bounds=MTU_70;_UDP_payload_100;_fragment_payloads_48+48+12_(MTU_not_8-aligned:_frames_<=_68);_symbolic_payload_ports_ttl;_Medium::Ip
+    // @harness props=C12,C10:t cfg=KI4 tier=q to=600 mem=6 unwind=12 opts=nomem covers=2 funcs=InterfaceInner::dispatch_ip;InterfaceInner::dispatch_ipv4_frag;DeviceCapabilities::max_ipv4_fragment_size;Fragmenter::finished bounds=MTU_70;_UDP_payload_100;_fragment_payloads_48+48+12_(MTU_not_8-aligned:_frames_<=_68);_symbolic_payload_ports_ttl;_Medium::Ip
     #[kani::proof]
     pub(crate) fn ipv4_frag_tx_70_100() {
         frag_tx::<70, 100, 3, 72, 128>(ChecksumCapabilities::ignored(), false);
     }
 
-    // @harness props=C12 cfg=KI4 tier=q to=600 mem=6 unwind=12 opts=nomem covers=2 funcs=InterfaceInner::dispatch_ip;InterfaceInner::dispatch_ipv4_frag;DeviceCapabilities::max_ipv4_fragment_size;Fragmenter::finished bounds=MTU_46;_UDP_payload_41;_fragment_payloads_24+24+1_(MTU_not_8-aligned:_46-20=26_rounds_down_to_24,_frames_<=_44);_symbolic_payload_ports_ttl;_Medium::Ip
+    // @harness props=C12,C10:t cfg=KI4 tier=q to=600 mem=6 unwind=12 opts=nomem covers=2 funcs=InterfaceInner::dispatch_ip;InterfaceInner::dispatch_ipv4_frag;DeviceCapabilities::max_ipv4_fragment_size;Fragmenter::finished bounds=MTU_46;_UDP_payload_41;_fragment_payloads_24+24+1_(MTU_not_8-aligned:_46-20=26_rounds_down_to_24,_frames_<=_44);_symbolic_payload_ports_ttl;_Medium::Ip
     #[kani::proof]
     pub(crate) fn ipv4_frag_tx_46_41() {
         frag_tx::<46, 41, 3, 56, 72>(ChecksumCapabilities::ignored(), false);
     }
 
-    // @harness props=C12 cfg=KI4 tier=q to=600 mem=6 unwind=12 opts=nomem covers=2 funcs=InterfaceInner::dispatch_ip;InterfaceInner::dispatch_ipv4_frag;DeviceCapabilities::max_ipv4_fragment_size;Fragmenter::finished bounds=MTU_50;_UDP_payload_63;_fragment_payloads_24+24+23_(MTU_not_8-aligned:_50-20=30_rounds_down_to_24,_frames_<=_44);_symbolic_payload_ports_ttl;_Medium::Ip
+    // @harness props=C12,C10:t cfg=KI4 tier=q to=600 mem=6 unwind=12 opts=nomem covers=2 funcs=InterfaceInner::dispatch_ip;InterfaceInner::dispatch_ipv4_frag;DeviceCapabilities::max_ipv4_fragment_size;Fragmenter::finished bounds=MTU_50;_UDP_payload_63;_fragment_payloads_24+24+23_(MTU_not_8-aligned:_50-20=30_rounds_down_to_24,_frames_<=_44);_symbolic_payload_ports_ttl;_Medium::Ip
     #[kani::proof]
     pub(crate) fn ipv4_frag_tx_50_63() {
         frag_tx::<50, 63, 3, 56, 96>(ChecksumCapabilities::ignored(), false);
     }
 
-    // @harness props=C12 cfg=KI4 tier=q to=900 mem=6 unwind=12 opts=nomem covers=2 funcs=InterfaceInner::dispatch_ip;InterfaceInner::dispatch_ipv4_frag;DeviceCapabilities::max_ipv4_fragment_size;Fragmenter::finished bounds=MTU_100;_UDP_payload_228;_fragment_payloads_80+80+76_(datagram_fills_the_256-byte_fragmentation_buffer_exactly);_symbolic_payload_ports_ttl;_Medium::Ip
+    // @harness props=C12,C10:t cfg=KI4 tier=q to=900 mem=6 unwind=12 opts=nomem covers=2 funcs=InterfaceInner::dispatch_ip;InterfaceInner::dispatch_ipv4_frag;DeviceCapabilities::max_ipv4_fragment_size;Fragmenter::finished bounds=MTU_100;_UDP_payload_228;_fragment_payloads_80+80+76_(datagram_fills_the_256-byte_fragmentation_buffer_exactly);_symbolic_payload_ports_ttl;_Medium::Ip
     #[kani::proof]
     pub(crate) fn ipv4_frag_tx_100_228() {
         frag_tx::<100, 228, 3, 104, 256>(ChecksumCapabilities::ignored(), false);
@@ -270,14 +270,14 @@ mod v_iface_frag_tx {
         frag_tx::<44, 49, 3, 48, 72>(ChecksumCapabilities::ignored(), true);
     }
 
-    // @harness props=C12 cfg=KI4 tier=q to=900 mem=6 unwind=12 opts=nomem covers=2 funcs=InterfaceInner::dispatch_ip;InterfaceInner::dispatch_ipv4_frag;DeviceCapabilities::max_ipv4_fragment_size;Fragmenter::finished bounds=MTU_44;_UDP_payload_17;_fragment_payloads_24+1;_all_checksums_computed_and_the_IPv4_header_checksum_verified_per_fragment;_symbolic_payload_ports_ttl;_Medium::Ip
+    // @harness props=C12,C08,C10 cfg=KI4 tier=q to=900 mem=6 unwind=12 opts=nomem covers=2 funcs=InterfaceInner::dispatch_ip;InterfaceInner::dispatch_ipv4_frag;DeviceCapabilities::max_ipv4_fragment_size;Fragmenter::finished bounds=MTU_44;_UDP_payload_17;_fragment_payloads_24+1;_all_checksums_computed_and_the_IPv4_header_checksum_verified_per_fragment;_symbolic_payload_ports_ttl;_Medium::Ip
     #[kani::proof]
     pub(crate) fn ipv4_frag_tx_cksum_44_17() {
         frag_tx::<44, 17, 2, 48, 48>(ChecksumCapabilities::default(), false);
     }
 
     // ------------------------------------------------------------------ larger than the fragmentation buffer
-    // @harness props=C12 cfg=KI4 tier=q to=600 mem=6 unwind=12 opts=nomem covers=1 funcs=InterfaceInner::dispatch_ip bounds=MTU_100;_UDP_payload_229_(datagram_one_byte_larger_than_the_256-byte_fragmentation_buffer)
+    // @harness props=C12,C10:t cfg=KI4 tier=q to=600 mem=6 unwind=12 opts=nomem covers=1 funcs=InterfaceInner::dispatch_ip bounds=MTU_100;_UDP_payload_229_(datagram_one_byte_larger_than_the_256-byte_fragmentation_buffer)
     #[kani::proof]
     pub(crate) fn ipv4_frag_tx_too_big() {
         ip_iface!(dev, iface, 100, ChecksumCapabilities::ignored());
